@@ -1,6 +1,7 @@
-from . import p_framing, p_status, p_call
+from . import p_framing, p_status, p_call, p_simple
 REGISTRY = {
     'C01': p_framing, 'C03': p_framing, 'C06': p_framing, 'C07': p_framing,
     'C04': p_status,
     'C02': p_call, 'C05': p_call, 'C08': p_call,
+    'C12': p_simple,
 }
